@@ -40,10 +40,13 @@ CHECK = {
            'fscanf on the twin and the twin file on disk; then the byte sweep: a 256-byte block holding every byte value once (0xFF last / 0xFF first) '
            'written with one swrite or 256 single-byte swrites and read back with sread(f,&b,1) x 257 (result, byte, seof, stell after every byte), then '
            '2-, 3- and 255-byte reads at each offset around the 0xFF byte, on a regular file, the same re-opened "rb", tmpfile(), fmemopen() and a pipe, '
-           'each against the same kind of stream driven with plain stdio'),
+           'each against the same kind of stream driven with plain stdio; then the write-size ladder: ONE swrite of n bytes of that pattern, n in {1, 2, 255, 256, 512, 1024, '
+           '4095, 4096, 4097, 8192, BUFSIZ-1, BUFSIZ, BUFSIZ+1, 2*BUFSIZ-1, 2*BUFSIZ, 2*BUFSIZ+1, 3*BUFSIZ, 65536, 65537}, alone and after a 1-byte write, on the same '
+           'five backends (pipe up to 32768): result, stell/seof, sflush, size and content on disk, one sread(n), the read at end-of-file, sread(m) for every '
+           'ladder size m <= n, sclose, disk again.  BFS instances named *-bufsiz / d6-full use a BUFSIZ-byte big block instead of 8193'),
   'bounds': {
-    'quick': 'all histories of depth <= 5 over the full 49-operation alphabet (gcc build); depth <= 4 under ASan+UBSan; print ladder N = 0..300 and 14 larger sizes up to 20000 x 3 variants, byte sweep 5 backends x 2 layouts x 2 write chunkings (gcc and ASan)',
-    'thorough': 'all histories of depth <= 7 over 48 operations (all but the 257-character print_to) and of depth <= 6 over the full 49-operation alphabet (gcc build); depth <= 6 under ASan+UBSan; the same print ladder and byte sweep',
+    'quick': 'all histories of depth <= 5 over the full 49-operation alphabet (gcc build); depth <= 4 under ASan+UBSan; print ladder N = 0..300 and 14 larger sizes up to 20000 x 3 variants, byte sweep 5 backends x 2 layouts x 2 write chunkings, write-size ladder 19 sizes x 2 alignments x 5 backends (gcc and ASan); depth <= 4 also with a BUFSIZ-byte big block',
+    'thorough': 'all histories of depth <= 7 over 48 operations (all but the 257-character print_to) and of depth <= 6 over the full 49-operation alphabet (gcc build); depth <= 6 under ASan+UBSan; the same print ladder, byte sweep and write-size ladder; the depth-6 gcc instance uses a BUFSIZ-byte big block, the others 8193',
   },
   'assumptions': [
     'glibc stdio is the reference for the twin stream; a disagreement between the twin and the harness\'s own byte-array model is reported as a harness error (exit 2), never as a verdict',
@@ -56,12 +59,13 @@ CHECK = {
     'quick': [
       T('d5', 'base', 'depth=5'),
       T('d4-asan', 'asan', 'depth=4'),
+      T('d4-bufsiz', 'base', 'depth=4', 'big=bufsiz'),
       T('ladder', 'base', 'mode=ladder'),
       T('ladder-asan', 'asan', 'mode=ladder'),
     ],
     'thorough': [
       T('d7', 'base', 'depth=7', 'bigprint=0'),
-      T('d6-full', 'base', 'depth=6'),
+      T('d6-full', 'base', 'depth=6', 'big=bufsiz'),
       T('d6-asan', 'asan', 'depth=6'),
       T('ladder', 'base', 'mode=ladder'),
       T('ladder-asan', 'asan', 'mode=ladder'),
